@@ -69,8 +69,12 @@ type c01Case struct {
 	SGOK   bool     `json:"sgok"` // schnorr.ParseSignature(sgb) succeeds
 	V      bool     `json:"v"`    // sig.Verify(idb, pk) called here directly
 	Res    int      `json:"res"`  // Verify(): 1 true, 0 false, 2 error, 3 panic
-	Valid  bool     `json:"valid"`
-	Expect int      `json:"expect"` // by construction: 1 authentic, 0 not authentic, 2 same bytes in another hex case
+	// Res2: Verify() of the same event after it went through JSON (written by encoding/json from a plain struct, read
+	// by the relay's Event.UnmarshalJSON); nil when a string of the event is not valid UTF-8 (encoding/json would
+	// change it) or the relay's decoder refuses the text
+	Res2   *int `json:"res2,omitempty"`
+	Valid  bool `json:"valid"`
+	Expect int  `json:"expect"` // by construction: 1 authentic, 0 not authentic, 2 same bytes in another hex case
 }
 
 // ---- the independent canonical encoder (NIP-01)
@@ -482,6 +486,56 @@ func c01Run(c *c01Case) {
 		}()
 		c.Valid = ev.Valid()
 	}()
+
+	// (c) the decoded copy: an event a relay judges has been through its JSON decoder
+	c.Res2 = nil
+	clean := utf8.ValidString(id) && utf8.ValidString(pk) && utf8.ValidString(sig) && utf8.ValidString(content)
+	for _, t := range tags {
+		for _, x := range t {
+			clean = clean && utf8.ValidString(x)
+		}
+	}
+	if clean {
+		wire := struct {
+			ID      string     `json:"id"`
+			PK      string     `json:"pubkey"`
+			TS      int64      `json:"created_at"`
+			Kind    int64      `json:"kind"`
+			Tags    [][]string `json:"tags"`
+			Content string     `json:"content"`
+			Sig     string     `json:"sig"`
+		}{id, pk, ts, kind, tags, content, sig}
+		if wire.Tags == nil {
+			wire.Tags = [][]string{}
+		}
+		for i := range wire.Tags {
+			if wire.Tags[i] == nil {
+				wire.Tags[i] = []string{}
+			}
+		}
+		if text, err := json.Marshal(wire); err == nil {
+			func() {
+				defer func() {
+					if recover() != nil {
+						c.Res2 = common.Ptr(3)
+					}
+				}()
+				var ev2 mocrelay.Event
+				if err := json.Unmarshal(text, &ev2); err != nil {
+					return
+				}
+				ok, err := ev2.Verify()
+				switch {
+				case err != nil:
+					c.Res2 = common.Ptr(2)
+				case ok:
+					c.Res2 = common.Ptr(1)
+				default:
+					c.Res2 = common.Ptr(0)
+				}
+			}()
+		}
+	}
 }
 
 // ---- generators
